@@ -21,7 +21,8 @@ from mc.runner import violation
 PROP = "C38"
 LEVEL = "exploration"
 ENGINE = "enum"
-RULE = ("complete product: CFG shapes (<= N blocks, out-degree <= 2, all reachable) x bodies (<= L assignments per block from "
+RULE = ("complete product: CFG shapes (<= N blocks, out-degree <= 2, all reachable; plus every such shape extended by a "
+        "self-looping block or a two-block cycle that no head reaches, separate or feeding a block of the main part) x bodies (<= L assignments per block from "
         "a register-only alphabet) x leaf terminator kind; distinct = distinct graph; non-trivial = the graph has a join, a "
         "loop or a redefinition (some variable defined twice or a block with two predecessors)")
 LEVEL_TEXT = ("Bounded-exhaustive enumeration of small IR graphs; the three analyses run on the real classes and are compared, "
@@ -124,14 +125,29 @@ def ref_liveness(g, out_regs):
     return live
 
 
-def check_graph(shape_idx, n, body_idx, cond_idx, alphabet, end_const):
+def extra_shapes(n):
+    """Shapes with blocks that are NOT reachable from block 0: every shape of irgen.shapes(n) extended by a region that
+    no head reaches (a self-looping block, or a two-block cycle), either a separate component or feeding block j of the
+    main part.  Path-based definitions do not care about reachability from a head; the analyses must not either."""
+    out = []
+    for base in irgen.shapes(n):
+        x, y = n, n + 1
+        for feed in [None] + list(range(n)):
+            out.append(tuple(base) + (((x,) if feed is None else (x, feed)),))
+            out.append(tuple(base) + ((y,), ((x,) if feed is None else (x, feed))))
+    return out
+
+
+def check_graph(shape_idx, n, body_idx, cond_idx, alphabet, end_const, extra=False):
     from miasm.analysis.data_flow import ReachingDefinitions, DiGraphDefUse, DiGraphLivenessIRA, AssignblkNode
-    shape = irgen.shapes(n)[shape_idx]
+    shape = extra_shapes(n)[shape_idx] if extra else irgen.shapes(n)[shape_idx]
     g = irgen.build(shape, body_idx, cond_idx, alphabet, CONDS, end_const=end_const)
-    case = {"n": n, "shape": shape_idx, "bodies": body_idx, "conds": cond_idx, "alphabet": alphabet, "end_const": end_const}
+    case = {"n": n, "shape": shape_idx, "bodies": body_idx, "conds": cond_idx, "alphabet": alphabet, "end_const": end_const,
+            "extra": extra}
     desc = irgen.describe(shape, body_idx, cond_idx, alphabet, CONDS) + (" [END=const]" if end_const else " [END=id]")
     kind = "loop" if not irgen.shape_is_loop_free(shape) else "dag"
     kind += "/no-leaf" if not irgen.shape_has_exit(shape) else ""
+    kind += "/unreachable-region" if extra else ""
     vs = []
     blocks, succ = point_graph(g)
     idx_of = {l: i for i, l in enumerate(g.locs)}
@@ -209,8 +225,9 @@ def nontrivial(shape, body_idx, alphabet):
 
 
 def _shard(args):
-    n, maxlen, alphabet, lo, hi = args
-    shapes = irgen.shapes(n)
+    n, maxlen, alphabet, lo, hi = args[:5]
+    extra = len(args) > 5 and args[5]
+    shapes = extra_shapes(n) if extra else irgen.shapes(n)
     bl = irgen.bodies(alphabet, maxlen)
     cnt = nt = 0
     vs = []
@@ -218,13 +235,13 @@ def _shard(args):
     sigs = {}
     for si in range(lo, hi):
         shape = shapes[si]
-        for body_idx in itertools.product(bl, repeat=n):
+        for body_idx in itertools.product(bl, repeat=len(shape)):
             cond_idx = tuple(0 for _ in shape)
-            for end_const in ((False, True) if irgen.shape_has_exit(shape) else (False,)):
+            for end_const in ((False, True) if irgen.shape_has_exit(shape) and not extra else (False,)):
                 cnt += 1
                 if nontrivial(shape, body_idx, alphabet):
                     nt += 1
-                for v in check_graph(si, n, body_idx, cond_idx, alphabet, end_const):
+                for v in check_graph(si, n, body_idx, cond_idx, alphabet, end_const, extra):
                     sigs[v["sig"]] = sigs.get(v["sig"], 0) + 1
                     if sigs[v["sig"]] <= 3:
                         vs.append(v)
@@ -244,6 +261,16 @@ def run(ctx):
         step = max(1, ns // 64)
         for lo in range(0, ns, step):
             shards.append((n, maxlen, alphabet, lo, min(ns, lo + step)))
+    # graphs with a cyclic region that no head reaches
+    if ctx.quick:
+        xplan = [(1, 1, ALPHABET_T), (2, 1, ["a=b", "a=a+1", "r=a", "zf=a==b"])]
+    else:
+        xplan = [(1, 2, ALPHABET_T), (2, 1, ALPHABET_Q), (3, 1, ["a=b", "r=a", "zf=a==b"])]
+    for n, maxlen, alphabet in xplan:
+        ns = len(extra_shapes(n))
+        step = max(1, ns // 32)
+        for lo in range(0, ns, step):
+            shards.append((n, maxlen, alphabet, lo, min(ns, lo + step), True))
     res = ctx.pmap(_shard, shards)
     sigcount = {}
     for r in res:
@@ -257,10 +284,12 @@ def run(ctx):
         "violating_graphs_by_signature": sigcount,
         "samples": [r[3] for r in res if r[3]][:5],
         "exhaustive": True,
-        "bounds": {"plan(blocks,max_assignments,alphabet)": [[n, l, a] for n, l, a in plan], "conditions": CONDS},
+        "bounds": {"plan(blocks,max_assignments,alphabet)": [[n, l, a] for n, l, a in plan],
+                   "plan_with_unreachable_cyclic_region(main blocks,max_assignments,alphabet)": [[n, l, a] for n, l, a in xplan],
+                   "conditions": CONDS},
     }
 
 
 def replay(case):
     return check_graph(case["shape"], case["n"], tuple(tuple(b) for b in case["bodies"]), tuple(case["conds"]),
-                       list(case["alphabet"]), case["end_const"])
+                       list(case["alphabet"]), case["end_const"], bool(case.get("extra")))
